@@ -105,6 +105,13 @@ def run_loop_table(ctx):
     import itertools
     marks = {'SimulatedBroker.update': 'broker.update', 'SignalsCollection.update': 'signals.update', 'QuantTradingSystem.__call__': 'qts',
              'BacktestTradingSession._update_equity_curve': 'equity'}
+    # (the method may be defined by a base class of the object: Broker.update as a template method run on the simulated broker)
+    for q_, a_ in list(marks.items()):
+        cn_, mn_ = q_.rsplit('.', 1)
+        c_ = ctx.M.cls(cn_)
+        m_ = c_.lookup(mn_) if c_ is not None else None
+        if m_ is not None and m_.qn not in marks:
+            marks[m_.qn] = a_
     from fractions import Fraction as Fr
     # the burn-in ordering, each with concrete instants (in days) so that tests computed FROM the two instants (dates, differences) are decided too:
     # the same calendar day and different days are both represented
@@ -143,6 +150,13 @@ def run_loop_table(ctx):
                             if c in marks:
                                 a = e.args.get('dt')
                                 seq.append((marks[c], fmt(a) if a is not None else None))
+                        if any(c in ('ext:APPLY',) for c in e.callee):
+                            # a step applied as a value (a deferred call taken from a generator or a list the engine did not unroll): what it does is not read
+                            val.unknown.append('unread: a step applied as a value at %s' % e.site)
+                    elif e.kind == 'write' and not e.d.get('local') and e.how.startswith('mut:') and loc_attr(e.loc) == 'equity_curve' \
+                            and 'BacktestTradingSession._update_equity_curve' not in ctx.M.funcs:
+                        # the sampler under another name (read through as a private step): the append to the curve is the action
+                        seq.append(('equity', None))
                 und = [c for c, v, s in b.conds if T.tkey(c) not in ()]
                 acts.add((tuple(seq), b.outcome))
         out.append((dict(signals=not sig_none, event=et, burn_in=burn, rebalance=reb, print_events=pr,
@@ -164,6 +178,9 @@ def cadence(ctx, rule):
         seq, outcome = acts[0]
         got = [a for a, arg in seq if a == 'signals.update']
         exp = 1 if (v['signals'] and v['event'] == 'market_close') else 0
+        if len(got) != exp and any(str(u_).startswith('unread:') for u_ in unknown):
+            ctx.undecided(rule, 'signals are updated exactly once per market close and at no other event', fn.site(), [u_ for u_ in unknown if str(u_).startswith('unread:')][0])
+            return
         if len(got) != exp:
             bad += 1
             ctx.violation(rule, 'signals are updated exactly once per market close and at no other event', fn.site(),
